@@ -29,6 +29,21 @@ EXPLANATION = (
 TECHNIQUE = "static analysis: value-graph extraction and ODE-residual identities (sympy), reader-shape extraction, exhaustive data lint"
 
 
+def new_record(I, AR, vals, name):
+    """An activation record with the given fields; whatever else the class's constructor insists on (explicit parameters
+    without defaults, e.g. of a dataclass) gets an opaque positive value."""
+    vals = dict(vals)
+    init = AR.lookup("__init__")
+    node = getattr(init, "node", None)
+    if node is not None and not node.args.kwarg:
+        a = node.args
+        pos = [x.arg for x in a.posonlyargs + a.args][1:]
+        required = pos[:len(pos) - len(a.defaults)] + [x.arg for x, d in zip(a.kwonlyargs, a.kw_defaults) if d is None]
+        for nm in required:
+            vals.setdefault(nm, sp.Symbol("rec_" + nm, positive=True))
+    return I.instantiate(AR, [], vals, name=name)
+
+
 def make(ctx, reaction, fast, Cd, fast_ratio):
     """World with one isotope carrying one activation record of the given kind."""
     w = World(ctx.src, loaders=())
@@ -36,10 +51,10 @@ def make(ctx, reaction, fast, Cd, fast_ratio):
     iso = w.isotope("Fe", 56)
     AR = I.get_class("activation.ActivationResult")
     P = lambda n: sp.Symbol(n, positive=True)
-    rec = I.instantiate(AR, [], dict(
+    rec = new_record(I, AR, dict(
         fast=fast, thermalXS=P("xs"), resonance=P("res"), Thalf_hrs=P("Th"), reaction=reaction,
         Thalf_parent=P("Thp"), thermalXS_parent=P("xsp"), resonance_parent=P("resp"),
-        daughter="X", isotope="Fe-56", comments=""), name="record")
+        daughter="X", isotope="Fe-56", comments=""), "record")
     w.set(iso, neutron_activation=[rec], isotope=sp.Symbol("A", positive=True))
     Env = I.get_class("activation.ActivationEnvironment")
     env = I.instantiate(Env, [], dict(fluence=P("phi"), Cd_ratio=Cd, fast_ratio=fast_ratio), name="env")
@@ -133,7 +148,7 @@ def run(ctx):
     w, iso, rec, env = make(ctx, "act", False, 0, 0)
     I = w.I
     AR = I.get_class("activation.ActivationResult")
-    rec2 = I.instantiate(AR, [], dict(I.heap[rec.id], thermalXS=P("xs2")), name="record2")
+    rec2 = new_record(I, AR, dict(I.heap[rec.id], thermalXS=P("xs2")), "record2")
     w.set(iso, neutron_activation=[rec, rec2])
     res = I.call(I.global_name("activation", "activity"), [iso, m, env, t, [sp.Integer(0)]], {})
     ctx.check(isinstance(res, dict) and len(res) == 2, "R3", "two table rows with the same isotope, daughter and reaction stay two products",
